@@ -19,6 +19,7 @@
 #include <sys/time.h>
 #include <unistd.h>
 #include "TFEL/Utilities/CxxTokenizer.hxx"
+#include "MFront/MFrontLogStream.hxx"
 #include "MFront/MFrontUtilities.hxx"
 #include "MFront/TargetsDescription.hxx"
 
@@ -160,6 +161,9 @@ static TargetsDescription readFile(const std::string& content) {
 }
 
 int main() {
+  // the log stream of mfront (merge notices) must not be mixed with the answers
+  static std::ostringstream logsink;
+  mfront::setLogStream(logsink);
   std::signal(SIGPROF, on_alarm);
   std::ios::sync_with_stdio(false);
   std::string line;
